@@ -38,7 +38,7 @@ def check(m, run):
     run.floor('GD1.check-dominates-store', 6, 'six concrete knot vector setters')
     run.floor('KC1.check-structure', 4, 'length test, order scan, coverage, final True')
     run.floor('LY4.generate-length', 2, 'clamped / unclamped')
-    run.floor('HO1.half-open-span', 3, 'binsearch lower+upper, linear')
+    run.floor('OT1.span-is-the-half-open-interval', 2, 'linear and binary span search over the order-type box (HO1 is the syntactic fast path and may be absent)')
     run.floor('TOL1.two-sided-tolerance', 2, 'find_multiplicity, binsearch end snap')
 
 
@@ -428,7 +428,9 @@ def ho1(m, run):
     kv, knot = ps[1], ps[3]
     loops = [n for n in walk_no_nested(fi.node) if isinstance(n, ast.While)]
     if len(loops) != 1:
-        raise AnalysisError('find_span_binsearch: expected one while loop')
+        run.note('HO1.half-open-span', fi.key, 'not in the one-while-loop form: the comparison operators are not read off syntactically; the half-open '
+                 'interval is decided by interpretation over the knot order types (OT1) only')
+        return ho1_linear(m, run)
     test = loops[0].test
     parts = test.values if isinstance(test, ast.BoolOp) and isinstance(test.op, ast.Or) else [test]
     seen = {}
@@ -458,13 +460,18 @@ def ho1(m, run):
     inner = [n for n in loops[0].body if isinstance(n, ast.If)]
     okb = bool(inner) and cmp_norm(inner[0].test, knot, kv) is not None and cmp_norm(inner[0].test, knot, kv)[0] is ast.Lt
     run.ob('HO1.half-open-span', fi.key + ' :: bisection branch', okb, 'high = mid when u < U[mid]' if okb else 'bisection branch test differs from the loop\'s lower-knot test', site(fi, loops[0]))
+    ho1_linear(m, run)
+
+
+def ho1_linear(m, run):
     # linear search: while span < n and kv[span] <= knot: span += 1 ; return span - 1
     fl = m.func('helpers.find_span_linear')
     ps = params_of(fl.node)
     kv, knot = ps[1], ps[3]
     loops = [n for n in walk_no_nested(fl.node) if isinstance(n, ast.While)]
     if len(loops) != 1:
-        raise AnalysisError('find_span_linear: expected one while loop')
+        run.note('HO1.half-open-span', fl.key, 'not in the one-while-loop form: decided by interpretation over the knot order types (OT1) only')
+        return
     test = loops[0].test
     parts = test.values if isinstance(test, ast.BoolOp) and isinstance(test.op, ast.And) else [test]
     found = None
